@@ -343,3 +343,44 @@ def pyDenotes (proj : Project) (order : List Nat) (m : Nat) (cp : List Name) (na
   denoteAt proj (run proj order) m cp name
 
 end PyImp
+
+/-! ## bounded search for a counterexample to soundness with re-exports (item 3) -/
+
+namespace Imports
+open Registry
+
+/-- the violations of `pydoctor resolves to a ∧ Python binds b → a = finalLoc b` among all dotted names
+of length ≤ depth + 1 over the identifiers of the project, in every module / definition scope, for
+one finished pydoctor state and one finished Python state: `(module, class chain, name, a, b)` -/
+def soundViolationsIn (proj : Project) (sPd : St) (sPy : PyImp.St) (depth : Nat) :
+    List (Nat × List Name × Path × Ident × Ident) × Nat :=
+  let ids := identifiers proj
+  (entities proj).foldl (fun acc S =>
+    let den (q : Path) : Option Ident := PyImp.denoteAt proj sPy S.1 S.2 q
+    let qs := extendQ (fun q => (den q).isSome) ids depth (ids.map fun x => [x])
+    qs.foldl (fun acc q =>
+      match resolveIn sPd S.1 S.2 q, den q with
+      | some a, some b => if a == finalLoc proj b then (acc.1, acc.2 + 1) else (acc.1 ++ [(S.1, S.2, q, a, b)], acc.2 + 1)
+      | _, _ => acc) acc) ([], 0)
+
+/-- … over a list of pydoctor processing orders and Python import orders; also: the analysis must be
+clean under every order and the resolution of every checked name the same under every order -/
+def soundViolations (proj : Project) (ordsPd ordsPy : List (List Nat)) (depth : Nat) :
+    List (Nat × List Name × Path × Ident × Ident) × Nat :=
+  ordsPd.foldl (fun acc o =>
+    let sPd := run proj o
+    if sPd.bad then (acc.1 ++ [(0, [], [], Ident.mod [], Ident.mod [])], acc.2) else
+    ordsPy.foldl (fun acc o' =>
+      let r := soundViolationsIn proj sPd (PyImp.run proj o') depth
+      (acc.1 ++ r.1, acc.2 + r.2)) acc) ([], 0)
+
+/-- all permutations of a list -/
+def insertAll {α : Type} (x : α) : List α → List (List α)
+  | [] => [[x]]
+  | y :: ys => (x :: y :: ys) :: (insertAll x ys).map (y :: ·)
+def perms {α : Type} : List α → List (List α)
+  | [] => [[]]
+  | x :: xs => (perms xs).flatMap (insertAll x)
+
+end Imports
+
